@@ -116,6 +116,54 @@ pub fn ref_param_grads(cfg: &NetCfg, params: &[P], x: &[f32], scalar: &dyn Fn(&V
         .collect()
 }
 
+/// The same for a chosen subset of the coordinates (large layers).
+pub fn ref_param_grads_at(cfg: &NetCfg, params: &[P], x: &[f32], scalar: &dyn Fn(&Val<D>) -> D, which: &[(usize, usize, usize)]) -> Vec<((usize, usize, usize), D)> {
+    let xin = Val::<D>::from_f32(cfg.input, x);
+    which
+        .iter()
+        .map(|co| {
+            let co = *co;
+            let net: RNet<D> = RNet::build(cfg, params, &mut |l, c, i, v| if (l, c, i) == co { D::var(v as f64) } else { D::c(v as f64) });
+            let tr = net.forward(&xin);
+            (co, scalar(tr.output()))
+        })
+        .collect()
+}
+
+/// All indices below `n`, or - for large `n` - the ones next to the block boundaries
+/// (0, 1, 31..33, 63..65, ..., n-2, n-1) plus random ones, `limit` in total.
+pub fn pick_indices(rng: &mut Rng, n: usize, limit: usize) -> Vec<usize> {
+    if n <= limit {
+        return (0..n).collect();
+    }
+    let mut v: Vec<usize> = vec![0, 1, n - 2, n - 1];
+    for b in [32usize, 64, 128, 256, 512, 1024, 2048, 4096, 8192] {
+        for d in [b - 1, b, b + 1] {
+            if d < n {
+                v.push(d);
+            }
+        }
+        if n > b {
+            v.push(n - n % b); // start of the last (partial) block
+            v.push(n - n % b - 1);
+        }
+    }
+    v.retain(|i| *i < n);
+    v.sort();
+    v.dedup();
+    while v.len() > limit {
+        let k = rng.range(0, v.len() - 1);
+        v.remove(k);
+    }
+    while v.len() < limit {
+        let k = rng.range(0, n - 1);
+        if !v.contains(&k) {
+            v.push(k);
+        }
+    }
+    v
+}
+
 /// The library's gradient entry for a parameter coordinate, from the reversed per-layer lists
 /// returned by `verif_backward`.
 pub fn lib_grad_at(net: &Network, cfg: &NetCfg, wg: &[Tensor], bg: &[Option<Tensor>], co: (usize, usize, usize)) -> Option<f32> {
@@ -215,6 +263,62 @@ fn layer_case(rng: &mut Rng, idx: u64, out: &mut Out) {
     } else {
         spatial_layer_case(rng, idx / 6, kind, 7, act)
     };
+    // every fourth block of cases: inputs, parameters and upstream gradient with exact zeros
+    layer_grad_check(rng, kind, l, input, (idx / 30) % 4 == 3, usize::MAX, idx < 6, out);
+}
+
+/// Layers that are large in one direction (see C02's `large` generator); the derivative is
+/// compared at up to 40 input and 40 parameter coordinates next to block boundaries.
+fn large_layer_case(rng: &mut Rng, idx: u64, out: &mut Out) {
+    use crate::monitors::c02::THRESHOLDS;
+    let kinds = ["dense", "conv", "deconv", "pool"];
+    let kind = kinds[(idx % 4) as usize];
+    let act = ELEMENTWISE[((idx / 4) % 5) as usize];
+    for _ in 0..200 {
+        let (l, input) = if kind == "dense" {
+            let (n_in, n_out) = match rng.range(0, 2) {
+                0 => (*rng.pick(&THRESHOLDS[..21]), rng.range(1, 3)),
+                1 => (rng.range(1, 5), *rng.pick(&THRESHOLDS[..18])),
+                _ => (*rng.pick(&THRESHOLDS[..11]), *rng.pick(&THRESHOLDS[..11])),
+            };
+            (LCfg::Dense { n: n_out, act, bias: rng.bool(), dropout: None }, Sh::Flat(n_in))
+        } else {
+            let big = *rng.pick(&THRESHOLDS[..11]);
+            let small = rng.range(1, 4);
+            let (h, w) = if rng.bool() { (big, small) } else { (small, big) };
+            let c = *rng.pick(&[1usize, 2, 3, 8, 9]);
+            let filters = *rng.pick(&[1usize, 2, 4, 5, 9]);
+            let g = |rng: &mut Rng| (rng.range(1, 5), rng.range(1, 4), rng.range(0, 3), rng.range(1, 3));
+            let (k0, s0, p0, d0) = g(rng);
+            let (k1, s1, p1, d1) = g(rng);
+            let l = match kind {
+                "conv" => LCfg::Conv { filters, kernel: (k0, k1), stride: (s0, s1), padding: (p0, p1), dilation: (d0, d1), act, dropout: None },
+                "deconv" => LCfg::Deconv { filters, kernel: (k0, k1), stride: (s0, s1), padding: (p0, p1), act, dropout: None },
+                _ => LCfg::Pool { kernel: (k0, k1), stride: (s0, s1) },
+            };
+            (l, Sh::Sp(c, h, w))
+        };
+        let work = match (&l, out_shape(&l, input)) {
+            (_, Err(_)) => continue,
+            (LCfg::Dense { n, .. }, Ok(_)) => n * input.count(),
+            (LCfg::Conv { kernel, .. }, Ok(o)) => o.count() * kernel.0 * kernel.1 * input.spatial().unwrap().0,
+            (LCfg::Deconv { kernel, filters, .. }, Ok(_)) => input.count() * kernel.0 * kernel.1 * filters,
+            (LCfg::Pool { kernel, .. }, Ok(o)) => o.count() * kernel.0 * kernel.1,
+            _ => continue,
+        };
+        if work > 40_000 {
+            continue;
+        }
+        out.count("large_layers", 1);
+        out.cover("large_layer_sizes", format!("{} {}", kind, input.name()));
+        layer_grad_check(rng, kind, l, input, idx % 5 == 4, 40, idx < 4, out);
+        return;
+    }
+    out.nontrivial = false;
+}
+
+#[allow(clippy::too_many_arguments)]
+fn layer_grad_check(rng: &mut Rng, kind: &str, l: LCfg, input: Sh, sparse: bool, limit: usize, sample: bool, out: &mut Out) {
     let cfg = NetCfg::plain(input, vec![l.clone()]);
     out.key = format!("layer {} on {}", l.describe(), input.name());
     if cfg.shapes().is_err() {
@@ -226,8 +330,6 @@ fn layer_case(rng: &mut Rng, idx: u64, out: &mut Out) {
     out.cover("layer_kinds", kind.to_string());
     // find a well-conditioned instance
     let mut found = None;
-    // every fourth block of cases: inputs, parameters and upstream gradient with exact zeros
-    let sparse = (idx / 30) % 4 == 3;
     if sparse {
         out.count("layer_cases_with_exact_zeros_in_input_parameters_and_upstream_gradient", 1);
     }
@@ -318,7 +420,7 @@ fn layer_case(rng: &mut Rng, idx: u64, out: &mut Out) {
     } else {
         let igf = flat(&ig);
         let rnet: RNet<D> = RNet::plain(&cfg, &params);
-        for j in 0..x.len() {
+        for j in pick_indices(rng, x.len(), limit) {
             let mut xv = Val::<D>::from_f32(cfg.input, &x);
             xv.d[j] = D::var(x[j] as f64);
             let d = scalar(rnet.forward(&xv).output());
@@ -339,7 +441,9 @@ fn layer_case(rng: &mut Rng, idx: u64, out: &mut Out) {
     }
     // parameter gradients
     if let Some(wg) = wg {
-        let refs = ref_param_grads(&cfg, &params, &x, &scalar);
+        let all = coords(&cfg, &params);
+        let which: Vec<(usize, usize, usize)> = pick_indices(rng, all.len(), limit).into_iter().map(|k| all[k]).collect();
+        let refs = ref_param_grads_at(&cfg, &params, &x, &scalar, &which);
         let wgs = vec![wg];
         let bgs = vec![bg];
         for (co, d) in refs.iter() {
@@ -378,7 +482,7 @@ fn layer_case(rng: &mut Rng, idx: u64, out: &mut Out) {
             }
         }
     }
-    if idx < 6 {
+    if sample {
         out.sample = Some(detail(&cfg, &params, &x).set("upstream", J::f32s(&u)));
     }
 }
@@ -673,10 +777,10 @@ impl Monitor for C01 {
         "C01"
     }
     fn gens(&self, tier: Tier) -> Vec<(&'static str, u64)> {
-        vec![("layers", tier.pick(97_200, 1_555_200)), ("networks", tier.pick(18_900, 302_400))]
+        vec![("layers", tier.pick(97_200, 1_555_200)), ("large_layers", tier.pick(3_000, 60_000)), ("networks", tier.pick(18_900, 302_400))]
     }
     fn rule(&self) -> &'static str {
-        "layers: case i -> (kind in conv/deconv/dense/pool, activation, geometry from the covering walk over the 108 (kernel 1..3, stride 1..3, padding 0..3, dilation 1..3) tuples per axis, channels/filters 1..3, extents up to 7, repetition-free weights/inputs/upstream gradient in [-1.5,1.5], in every fourth block of cases with 30-40% of them set to exactly 0); the layer's public backward(u, x, pre) is compared entry by entry with the forward-mode dual-number derivative of <u, post(x; theta)> w.r.t. every input element and every weight/bias/kernel element (|g - d| <= 16 * de + 1e-5 * m: de = first-order bound on the deviation of a correct f32 evaluation incl. the effect of forward rounding on the derivative factors, m = the same derivative on absolute values); the input gradient must have the input's shape. networks: depth 2..5, any mix of dense/conv/deconv/pool that fits, every third with one or two feedback blocks (1..3 loops, no skips; gradients compared per unrolled copy), all seven objectives; gradients taken from the hooked Network::backward, (every third case) from the parameter change of one learn() step with plain SGD, or (every fifth block of cases) from the hooked backward of a network object that has already been trained for 1..3 steps (oracle at the parameters read back from it); oracle = derivative of the objective value for AE/MSE/BCE/KL and for soft-max + cross-entropy, of <objective gradient, output> for MAE/RMSE/CE. Instances within 1e-3 of a ReLU kink / pool tie or with saturated sigmoid (pre > 6) are regenerated. Distinct = distinct configuration descriptors."
+        "layers: case i -> (kind in conv/deconv/dense/pool, activation, geometry from the covering walk over the 108 (kernel 1..3, stride 1..3, padding 0..3, dilation 1..3) tuples per axis, channels/filters 1..3, extents up to 7, repetition-free weights/inputs/upstream gradient in [-1.5,1.5], in every fourth block of cases with 30-40% of them set to exactly 0); the layer's public backward(u, x, pre) is compared entry by entry with the forward-mode dual-number derivative of <u, post(x; theta)> w.r.t. every input element and every weight/bias/kernel element (|g - d| <= 16 * de + 1e-5 * m: de = first-order bound on the deviation of a correct f32 evaluation incl. the effect of forward rounding on the derivative factors, m = the same derivative on absolute values); the input gradient must have the input's shape. large_layers: the same layer-level check on layers that are large in one direction (dense layers with inputs up to 4095 or outputs up to 1025, spatial layers with an extent up to 130, up to 9 channels / filters, kernels 1..5, stride 1..4, padding 0..3, dilation 1..3), derivative compared at up to 40 input and 40 parameter coordinates chosen next to block boundaries (0, 1, 31..33, 63..65, ..., start of the last partial block, n-2, n-1) plus random ones. networks: depth 2..5, any mix of dense/conv/deconv/pool that fits, every third with one or two feedback blocks (1..3 loops, no skips; gradients compared per unrolled copy), all seven objectives; gradients taken from the hooked Network::backward, (every third case) from the parameter change of one learn() step with plain SGD, or (every fifth block of cases) from the hooked backward of a network object that has already been trained for 1..3 steps (oracle at the parameters read back from it); oracle = derivative of the objective value for AE/MSE/BCE/KL and for soft-max + cross-entropy, of <objective gradient, output> for MAE/RMSE/CE. Instances within 1e-3 of a ReLU kink / pool tie or with saturated sigmoid (pre > 6) are regenerated. Distinct = distinct configuration descriptors."
     }
     fn assumptions(&self) -> Vec<&'static str> {
         vec![
@@ -690,6 +794,7 @@ impl Monitor for C01 {
         let mut out = Out::new(String::new());
         match gen {
             "layers" => layer_case(&mut rng, idx, &mut out),
+            "large_layers" => large_layer_case(&mut rng, idx, &mut out),
             "networks" => network_case(&mut rng, idx, &mut out),
             _ => panic!("unknown generator {}", gen),
         }
